@@ -1,6 +1,7 @@
 #!/bin/bash
 # run every registered check (quick by default) and summarise; usage: tools/runall.sh [quick|thorough] [ids...]
 cd "$(dirname "$0")/.."
+mkdir -p work
 tier=${1:-quick}; shift
 ids=${@:-C01 C02 C03 C04 C05 C06 C07 C08 C09 C10 C11 C12 C13 C14 C15 C16 C17 C18 C19 C20}
 for p in $ids; do
